@@ -647,15 +647,19 @@ class TaskPool:
                 # Re-prepare same submit.
                 itask.submit_num -= 1
 
-            # Running or finished task can have completed custom outputs.
-            if itask.state(
-                    TASK_STATUS_RUNNING,
-                    TASK_STATUS_FAILED,
-                    TASK_STATUS_SUCCEEDED
-            ):
-                for message in json.loads(outputs_str):
+            # Restore completed outputs (a submitted or retrying task can
+            # have outputs completed by its earlier submissions).
+            outputs = json.loads(outputs_str) if outputs_str else {}
+            if isinstance(outputs, dict):
+                # {trigger: message} - match triggers, not messages.
+                for trigger in outputs:
+                    with suppress(KeyError):
+                        itask.state.outputs.set_trigger_complete(trigger)
+            else:
+                # BACK COMPAT: [message] (Cylc >=8.0.0,<8.3.0)
+                for message in outputs:
                     itask.state.outputs.set_message_complete(message)
-                    self.data_store_mgr.delta_task_output(itask, message)
+            self.data_store_mgr.delta_task_outputs(itask)
 
             if platform_name and status != TASK_STATUS_WAITING:
                 itask.summary['platforms_used'][
